@@ -95,8 +95,14 @@ func parseBatch(c *core.Ctx, inputs [][]byte, tree bool) ([]*parseOut, []string)
 
 // cliParse judges one input through the real CLI.
 func cliParse(c *core.Ctx, in []byte) (acc bool, abn string, res *runner.Result) {
-	// all three input paths take turns (chosen by the input itself, so a replay takes the same path)
-	h := hashBytes(in) % 12
+	// the input paths take turns (chosen by the input itself, so a replay takes the same path)
+	return cliParsePath(c, in, hashBytes(in)%cliPaths)
+}
+
+const cliPaths = 12
+
+// cliParsePath asks `crd text parse` about the text over the given input path.
+func cliParsePath(c *core.Ctx, in []byte, h uint32) (acc bool, abn string, res *runner.Result) {
 	if h == 8 && !runner.PtyTypable(in) {
 		h = 0
 	}
@@ -602,6 +608,30 @@ func checkC04(c *core.Ctx) {
 			}
 		}
 		judgeParse(c, g, "lowbyte", i, dedup(mine), true, "lowbyte")
+	})
+	// every input path of the command line, on a fixed set of sentences and non-sentences (the other streams pick one
+	// path per text): a byte order mark in front of the text is a symbol rune like any other and makes it a non-sentence
+	pathTexts := []string{"C[1]", "C[1] Am7/G[2]\nR[1] F#m7b5[1/2,1/2]{txt=hello}\n", "1[1] 5_7/7[2] R[4]\n", ";title\n\nC[1]\n\n;end", "Bb_sus4[3/4]{key=Gm,bpm=96}", "R[1]",
+		"C[1", "C[1] D[", "[1]", "C{a=b}", "C[1]]", "C[1] ;x\n{a=b}", "",
+		"\ufeffC[1]", "\ufeff; title\n1[1] 5_7[2]", "\ufeff", "C[1]\ufeff", "\ufeff\nC[1] D[2]\n"}
+	c.Stream("paths", len(pathTexts)*cliPaths, func(i int, _ *rand.Rand) {
+		in, h := []byte(pathTexts[i/cliPaths]), uint32(i%cliPaths)
+		want, _ := g.Accept(in)
+		acc, abn, res := cliParsePath(c, in, h)
+		c.Eval(1)
+		if abn == "infra" {
+			return
+		}
+		sig := fmt.Sprintf("paths:%d:%s", h, qs(in))
+		if abn != "" {
+			c.Violate("paths", i, sig+":abnormal", fmt.Sprintf("crd text parse on %s (input path %d) %s", qs(in), h, abn), obs(res))
+			return
+		}
+		if acc != want {
+			c.Violate("paths", i, sig+":verdict", fmt.Sprintf("crd text parse (input path %d) accepts=%v, the grammar accepts=%v: %s", h, acc, want, qs(in)), obs(res))
+			return
+		}
+		c.Nontrivial(sig)
 	})
 	// the tree written with -o onto the file the text came from (same path, another spelling of it, a symbolic
 	// link, a hard link, the file as standard input): the verdict and the tree are those of the text
